@@ -5,6 +5,7 @@ mod gen;
 mod link;
 mod machine;
 mod model;
+mod monitor;
 mod props;
 mod reflex;
 mod runner;
